@@ -1,4 +1,5 @@
 import MpVerif.C05.LemmasAll
+import MpVerif.Gen.SolGuards
 /-!
 # C05 — a written .sol file is read back as the same solution: property theorems
 
@@ -66,6 +67,25 @@ theorem C05_real_entries_good {D : Type} (c : Codec D) (vs : List D)
     (h : ∀ v ∈ vs, c.isZero v = false → GoodSufTok (c.enc v)) :
     ∀ e ∈ sparseD c 0 vs, e.1 < vs.length ∧ GoodSufTok e.2 := by
   intro e he; simpa using sparseD_good c 0 vs h e he
+
+/-! ## translator ties (ROUND 4)
+
+`MpVerif.Gen.SolGuards` is regenerated on every run from the tree under test (`translators/gen_solguards.py`): the writer's kind mask and
+OUTPUT filter through clang's typed AST, and (structure tie) the ordered list of format strings of every `print` in include/mp/sol.h. -/
+section gen
+open MpVerif.CSem MpVerif.Gen.SolGuards
+
+/-- the suffix kind printed in the header, `kind & (SUFFIX_KIND_MASK | FLOAT | IODECL)`, = the model's `kindMask` (suffix kinds are flag sets below 128) -/
+theorem C05_gen_kind_mask : ∀ k : Fin 128, w_kind_mask (k.val : Int) = .ret ((kindMask k.val : Nat) : Int) := by decide
+
+/-- the OUTPUT filter `(kind & suf::OUTPUT) == 0` = the model's `isOutput` -/
+theorem C05_gen_is_output : ∀ k : Fin 128, w_is_output (k.val : Int) = .ret (if isOutput k.val then 1 else 0) := by decide
+
+/-- every `print` of the writer, in source order, has the format string the model renders (`{}` ↦ `encInt`/`encNat`, `{:.16}` ↦ `Codec.enc`),
+and the suffix kinds are visited in the order of `Sol.sufs` -/
+theorem C05_gen_writer_formats : writer_formats = writerFormats ∧ writer_kind_order = writerKindOrder := by decide
+
+end gen
 
 /-! ## non-finite values -/
 
@@ -232,6 +252,11 @@ example : Wf tokCodec sol1 3 2 where
         simpa using this
       subst this
       exact ⟨by decide, ⟨by decide, by decide, by decide⟩⟩
+
+/-- hypotheses of `C05_nonfinite_rejected` / the ranges of the `C05_gen_*` theorems are inhabited by the cases that matter -/
+example : str "inf" ∈ nonfiniteToks ∧ str "-nan" ∈ nonfiniteToks := by decide
+example : MpVerif.Gen.SolGuards.w_kind_mask 92 = .ret 12 ∧ MpVerif.Gen.SolGuards.w_is_output 92 = .ret 1 ∧
+    MpVerif.Gen.SolGuards.w_is_output 44 = .ret 0 := by decide
 
 /-! non-vacuity of the hypotheses -/
 example : GoodNum (str "-2.25e-07") := ⟨by decide, by decide, by decide⟩
